@@ -525,7 +525,7 @@ def hist_stream(ctx):
 
 def check_C09(ctx):
     return skeleton_check(ctx, "C09", "Acv.Props.C09", C09_THEOREMS, extra=hist_stream,
-        rule="histories of 4..9 documents (random graphs that pass/fail, repeats, empty graph, JSON-LD-rejected and undecodable documents) through one PreparedEvalQuery of a random declarative profile with validations on all three levels (one history in six uses a profile that leaves `core`/`apiContract` to the built-in prefix table); in half of the histories OTHER profiles, which rebind built-in aliases or reuse `ex` for another namespace, are validated by the same process between the documents; each report compared byte for byte with a fresh ValidateWithConfiguration under a fixed clock in the same process AND with the same validation run alone in a process of its own",
+        rule="histories of 4..9 documents (random graphs that pass/fail, repeats, empty graph, JSON-LD-rejected and undecodable documents) through one PreparedEvalQuery of a random declarative profile with validations on all three levels (one history in six uses a profile that leaves `core`/`apiContract` to the built-in prefix table); in half of the histories OTHER profiles, which rebind built-in aliases or reuse `ex` for another namespace, are validated by the same process between the documents; one history in six runs over documents whose @context is a REFERENCE to a context file that is revised between the calls; each report compared byte for byte with a fresh ValidateWithConfiguration under a fixed clock in the same process AND with the same validation run alone in a process of its own (which sees the same context files)",
         assumptions=["OPA's PreparedEvalQuery.Eval is a pure function of (query, input) returning fresh result trees: this is the hypothesis of history_independent (Engine.evalDoc) and is only observed by the history runs"])
 
 
@@ -639,7 +639,8 @@ def check_C18(ctx):
         ctx.oblige("correspondence:built acv binary vs library output over prior file states x subcommands", bad == 0)
     except Broken as b:
         broken.append(b)
-    ctx.coverage["rule"] = ("acv validate/generate/normalize/compile on conforming, violating, random and failing inputs, data whose JSON spelling a re-encoder would change (number literals, escapes), operational faults (missing profile/data file, missing arguments, output path in a missing directory); output file prior state absent/empty/shorter/longer/1MiB; "
+    ctx.coverage["rule"] = ("acv validate/generate/normalize/compile on conforming, violating, random and failing inputs, data whose JSON spelling a re-encoder would change (number literals, escapes), profiles the translator accepts and the engine rejects, operational faults (missing profile/data file, missing arguments, output path in a missing directory); "
+                            "output file prior state absent/empty/shorter/longer/1MiB, a dangling symbolic link, a link to an existing file, the data file itself; file names with $VAR/${VAR} (VAR set), blanks and non-ASCII letters; "
                             "library output computed in-process; only the value of dateCreated is masked (checked to be RFC 3339 within the run window)")
     ctx.assumptions += ["a read-only output file cannot be produced as root in this sandbox: that prior state exists only in the model"]
     return conclude(ctx, broken, trusted=TRUST_COMMON + ["os.OpenFile/os.Create/WriteString semantics (modelled by opened/writeAt0)"])
@@ -689,7 +690,8 @@ def check_C16(ctx):
     except Broken as b:
         broken.append(b)
     ctx.coverage["rule"] = ("a fixed list of boundary strings with ALL their single-edit mutations (insert/delete/replace/transpose over the path alphabet incl. non-ASCII), "
-                            "random sentences of the grammar (depth<=4) with random optional whitespace and redundant parentheses, and 25 (quick) or all (thorough) single-edit mutations of each; compared: accept/reject and the parsed structure")
+                            "random sentences of the grammar (depth<=4) with random optional whitespace and redundant parentheses - each also in a canonical spelling without optional whitespace, which must be accepted and parsed alike -, "
+                            "and 25 (quick) or all (thorough) single-edit mutations of each; compared: accept/reject and the parsed structure, at ParsePath and where a profile holds paths (constraint key, *Property argument)")
     ctx.assumptions += ["the ~1200-line pigeon runtime inside peg.go is modelled by the generic PEG interpreter (Acv/Model/Peg.lean); the semantic actions onExpression1/onTerm1/onFactor*/onIri1 are hand-modelled; both are tied by this correspondence"]
     return conclude(ctx, broken, trusted=TRUST_COMMON + ["grammar-table translators for peg.go and propertyparser.peg (harness/extract_peg.go)"])
 
@@ -830,6 +832,7 @@ def check_C12(ctx):
         return conclude(ctx, [b])
     broken += prove(ctx, "Acv.Props.C12", C12_THEOREMS)
     broken += prove(ctx, "Acv.Props.C12Trace", C12_TRACE_THEOREMS)
+    broken += prove(ctx, "Acv.Props.C12Path", ["Acv.C12Path.not_compact_of_foreign", "Acv.C12Path.reexpand_fails_of_foreign", "Acv.C12Path.reexpansion_rewrites"])
     try:
         lines = gen_cases("c12", 80 if ctx.quick() else 2500, ctx.seed * 1000 + 5)
         impl = run_impl(lines)
@@ -904,7 +907,11 @@ def check_C12(ctx):
                 ctx.brk("C12:trace-model-error", "trace model driver rejected the case: " + tm["error"], {"case": {k: case[k] for k in case if k != "data"}})
                 continue
             diff = tracecmp.trace_difference(doc, tm)
-            if diff:
+            unnamed = tracecmp.unnamed_paths(doc, tm) if diff else None
+            if unnamed:
+                tbad += 1
+                ctx.violation("C12:trace-path-unnamed", unnamed, {"case": {k: case[k] for k in case if k != "data"}, "report": doc})
+            elif diff:
                 tbad += 1
                 ctx.brk("C12:trace-model", "traces of the real report differ from the trace model: " + diff, {"case": {k: case[k] for k in case if k != "data"}, "report": doc})
         ctx.oblige("correspondence:results, trace entries (component, path) and sub-results of real reports = trace model (one entry per literal of a firing branch)", tbad == 0)
@@ -1038,7 +1045,11 @@ def check_C10(ctx):
                 own = [w for w in where if "/repo/" in w][:4]
                 ctx.violation("C10:data-race:" + ",".join(own[:2]), f"the race detector reports {races} data race(s) under {out and out.get('goroutines')} concurrent goroutines; first at {own[:2]}",
                               {"round": r, "stderr_head": first, "summary": out})
-            if out is None or out.get("outcome") != "ok":
+            if out is not None and out.get("outcome") == "blocked":
+                bad += 1
+                ctx.violation("C10:calls-never-returned", f"{len(out.get('stuck') or [])} of {out.get('goroutines')} goroutines were still inside a call {out.get('after_s')} s after the start ({out.get('calls')} calls had returned): {(out.get('stuck') or [])[:4]}",
+                              {"round": r, "summary": out, "replay_cmd": f"acvh_race racestress {ctx.seed * 100 + r} {'16' if ctx.quick() else '24'} {'8' if ctx.quick() else '12'}"})
+            elif out is None or out.get("outcome") != "ok":
                 bad += 1
                 ctx.violation("C10:stress-failed", f"race stress run did not finish: rc={p.returncode} {p.stderr[-300:]}", {"round": r, "stderr_tail": p.stderr[-1500:]})
                 continue
@@ -1054,7 +1065,9 @@ def check_C10(ctx):
     except Broken as b:
         broken.append(b)
     ctx.coverage["rule"] = ("theorems over every schedule of any number of threads; inventory of package-level state regenerated with go/packages; "
-                            "search: 12-24 goroutines x 6-12 calls mixing all entry points over 6 profiles, one PreparedEvalQuery shared by all, under the Go race detector, each result compared with its serial counterpart")
+                            "search: 16-24 goroutines x 8-12 calls mixing all entry points over ~26 jobs (random profiles, a big accepted one, two rejected ones, cold prefix-less ones, documents whose @context is a file, "
+                            "jobs whose EVALUATION fails - more per run than there are processors), every job under a report configuration of its own (several agree in one schema IRI and differ in the other), "
+                            "one PreparedEvalQuery shared by all, under the Go race detector, each result compared with its serial counterpart; a watchdog names the calls that never returned")
     ctx.assumptions += ["data-race freedom of OPA, json-gold, yaml.v3 and of the Go runtime's view of memory is not modelled: a torn read cannot be exhibited by the interleaving model; only searched with the race detector",
                         "OPA documents PreparedEvalQuery.Eval as safe for concurrent use"]
     return conclude(ctx, broken, trusted=TRUST_COMMON + ["go/packages-based inventory extractor (harness/extract_types.go)"])
@@ -1139,7 +1152,10 @@ def check_C06(ctx):
             for l in p.stdout.split("\n"):
                 if l.startswith("{"):
                     out = json.loads(l)
-            if out is None or out.get("outcome") != "ok":
+            if out is not None and out.get("outcome") == "blocked":
+                cbad += 1
+                ctx.violation("C06:calls-never-returned", f"{len(out.get('stuck') or [])} of {gor} goroutines were still inside a call {out.get('after_s')} s after the start: {(out.get('stuck') or [])[:4]}", {"round": r, "goroutines": gor, "summary": out})
+            elif out is None or out.get("outcome") != "ok":
                 cbad += 1
                 ctx.violation("C06:concurrent-run-failed", f"concurrent run did not finish: rc={p.returncode} {p.stderr[-300:]}", {"round": r, "goroutines": gor, "stderr_tail": p.stderr[-1500:]})
                 continue
@@ -1369,7 +1385,8 @@ C15_THEOREMS = ["Acv.C15.expand_rename", "Acv.C15.expand_total_on_grammar", "Acv
                 "Acv.C03.severity_is_level", "Acv.C06.insertAll_perm", "Acv.C07.var_names_distinct"]
 
 
-PARSER_THEOREMS = ["Acv.ProfileParser.get_is_first_match", "Acv.ProfileParser.get_eq_some_iff", "Acv.ProfileParser.get_eq_none_iff", "Acv.ProfileParser.get_perm",
+PARSER_THEOREMS = ["Acv.ProfileParser.profile_key_tags", "Acv.ProfileParser.validation_key_tags", "Acv.ProfileParser.expression_key_tags", "Acv.ProfileParser.validation_key_order_tags",
+                   "Acv.ProfileParser.get_is_first_match", "Acv.ProfileParser.get_eq_some_iff", "Acv.ProfileParser.get_eq_none_iff", "Acv.ProfileParser.get_perm",
                    "Acv.ProfileParser.validation_key_order", "Acv.ProfileParser.expression_key_order_deep", "Acv.ProfileParser.expression_key_order",
                    "Acv.ProfileParser.key_order_under", "Acv.ProfileParser.key_order_under_connective",
                    "Acv.ProfileParser.precedence", "Acv.ProfileParser.precedence_propertyConstraints", "Acv.ProfileParser.precedence_rego", "Acv.ProfileParser.precedence_regoModule",
@@ -1443,7 +1460,8 @@ def check_C15(ctx):
         broken.append(b)
     ctx.coverage["rule"] = ("random profiles of the full declarative language; spelling A canonical; spelling B: every mapping (top level, prefixes, validations, propertyConstraints, constraint keys, if/then/else, count/validation), "
                             "level list and and/or operand list shuffled, conjunctions merged into one propertyConstraints map, block/flow style, plain/single/double quoting, comments, blank lines, indentation 2 or 4; "
-                            "spelling C: additionally every compact IRI uses one of three prefixes (incl. `_` and `-`) bound to the same namespace; all on the same graph. "
+                            "spelling C: additionally every compact IRI uses one of three prefixes (incl. `_` and `-`) bound to the same namespace, datatypes (incl. the sized integer types) go through a second alias of the XML Schema namespace; "
+                            "in a quarter of the cases the validation names are texts YAML reads as a number, boolean, null or date when a KEY is written plain (keys plain or quoted at random, list VALUES always quoted); all on the same graph. "
                             "Parser stream: the repository's fixture profiles, generated profiles, their structural mutations (duplicated and conflicting keys, wrongly typed values), and hostile texts; the real parser's dump (verif hook DumpProfile) against the parser model run on yaml.v3's node tree")
     ctx.assumptions += ["yaml.v3 maps the style variants to the same node tree (kind, tag, value): dependency, observed only"]
     return conclude(ctx, broken, trusted=TRUST_COMMON)
